@@ -245,9 +245,17 @@ func c13Channel(seq bool) {
 	// ---------------- program ----------------
 	n := simrt.DrawRange(0, 10)
 	srcCap := []int{0, 0, 1, 2, 4, 8}[simrt.Draw(6)]
+	deep := seq && simrt.Chance(1, 5) // a scripted deep replay: many reads, rollback, a long partial re-read, commit
 	if seq {
 		n = simrt.DrawRange(3, 12)
 		srcCap = []int{0, 2, 12, 12}[simrt.Draw(4)]
+	}
+	deepA, deepB := 0, 0
+	if deep {
+		deepA = simrt.DrawRange(9, 13)
+		deepB = simrt.DrawRange(8, deepA-1)
+		n = deepA + (deepA - deepB + 2) + 2 + simrt.Draw(3) // never fewer values than the script reads: a Get with a live context would poll for ever
+		srcCap = 32
 	}
 	srcAny := simrt.Chance(1, 2)
 	closeSrc := simrt.Chance(1, 2)
@@ -279,7 +287,31 @@ func c13Channel(seq bool) {
 		closer, nClients, minOps, maxOps = 0, 1, 10, 30
 	}
 	progs := make([][]c13OpPlan, nClients)
+	if deep {
+		simrt.Probe("deep_replay_script")
+		a, b := deepA, deepB
+		var pr []c13OpPlan
+		add := func(kind, times int) {
+			for ; times > 0; times-- {
+				pr = append(pr, c13OpPlan{kind: kind, ctxKind: 1})
+			}
+		}
+		add(c13Get, a)
+		add(c13Rollback, 1)
+		add(c13Get, b)
+		add(c13Commit, 1)
+		add(c13Buffer, 1)
+		add(c13Get, a-b+simrt.Draw(3))
+		add(c13Rollback, simrt.Draw(2))
+		add(c13Get, simrt.Draw(3))
+		add(c13Commit, 1)
+		add(c13Buffer, 1)
+		progs[0] = pr
+	}
 	for c := range progs {
+		if deep {
+			break
+		}
 		for k := simrt.DrawRange(minOps, maxOps); k > 0; k-- {
 			op := c13OpPlan{}
 			if !seq || simrt.Chance(1, 4) {
@@ -333,6 +365,10 @@ func c13Channel(seq bool) {
 	if srcAny {
 		srcAnyC = make(chan any, srcCap)
 		source = srcAnyC
+		if simrt.Chance(1, 2) {
+			source = (<-chan any)(srcAnyC) // a receive-only view is all the Channel needs
+			simrt.Probe("receive_only_source_of_any")
+		}
 	} else {
 		srcInt = make(chan int, srcCap)
 		source = (<-chan int)(srcInt) // receive-only view: all the Channel needs
